@@ -50,6 +50,23 @@ pub const KINDS: &[(&str, &str)] = &[
     ("RaytracingAccelerationStructure", "RaytracingAccelerationStructure"),
 ];
 
+/// object kinds that are NOT resources (no register class) but can be written as the type of a global: since fix
+/// 774c0b4 the allocator leaves such a global alone (before it, `get_register_type` panicked on the DirectX
+/// parameter set and the other parameter sets handed it a slot)
+pub const NON_RESOURCE_KINDS: &[(&str, &str)] = &[
+    ("RayDesc", "RayDesc"),
+    ("RayQuery", "RayQuery<0>"),
+    ("TriangleStream", "TriangleStream<CbS>"),
+];
+
+fn spelling(kind: &str) -> &'static str {
+    KINDS.iter().chain(NON_RESOURCE_KINDS).find(|x| x.0 == kind).unwrap().1
+}
+
+fn is_resource(kind: &str) -> bool {
+    KINDS.iter().any(|x| x.0 == kind)
+}
+
 /// kinds that take two slots per element on Metal (the property: raw and structured buffers)
 const DOUBLED: &[&str] = &[
     "ByteAddressBuffer",
@@ -98,7 +115,7 @@ fn parse_decl(s: &str) -> Option<Decl> {
             kind: if *kind == "-" {
                 None
             } else {
-                Some(KINDS.iter().find(|k| k.0 == *kind)?.0)
+                Some(KINDS.iter().chain(NON_RESOURCE_KINDS).find(|k| k.0 == *kind)?.0)
             },
             len: on(len)?,
         }),
@@ -137,7 +154,7 @@ fn source(decls: &[Decl]) -> String {
                     s.push_str(&format!("[[rssl::bind_group({})]] ", g));
                 }
                 let ty = match kind {
-                    Some(k) => KINDS.iter().find(|x| x.0 == *k).unwrap().1,
+                    Some(k) => spelling(k),
                     None => "static const int",
                 };
                 s.push_str(&format!("{} g{}", ty, i));
@@ -241,6 +258,8 @@ fn oracle(decls: &[Decl], params: [bool; 4], dflt: u32, obs: &Observed) -> Resul
                 match kind {
                     None => (g, None),
                     Some(_) if *ss && !ss_slots => (g, None),
+                    // a ray description / ray query / output stream is not something bound from outside the shader
+                    Some(k) if !is_resource(k) => (g, None),
                     Some(k) => {
                         let is_ba = *k == "BufferAddress" || *k == "RWBufferAddress";
                         if sba && is_ba && len.is_none() {
@@ -375,6 +394,7 @@ fn run_seq(
             Decl::CBuffer(_) => "decl:cbuffer",
             Decl::Global { kind: None, .. } => "decl:non-object",
             Decl::Global { ss: true, .. } => "decl:static-sampler",
+            Decl::Global { kind: Some(k), .. } if !is_resource(k) => "decl:non-resource-object",
             Decl::Global { len: Some(_), .. } => "decl:object-array",
             Decl::Global { .. } => "decl:object",
         });
@@ -407,6 +427,14 @@ fn alphabet(full: bool) -> Vec<Decl> {
         a.push(Decl::Global { set: s, ss: false, kind: None, len: None });
     }
     a.push(Decl::Global { set: None, ss: false, kind: None, len: Some(2) });
+    // non-resource object kinds: take nothing, in every group spelling and as arrays
+    for (k, _) in NON_RESOURCE_KINDS {
+        for s in if full { &sets[..] } else { &sets[..2] } {
+            for l in if full { &lens[..] } else { &lens[..1] } {
+                a.push(Decl::Global { set: *s, ss: false, kind: Some(k), len: *l });
+            }
+        }
+    }
     for k in ["Texture2D", "RWStructuredBuffer", "SamplerState"] {
         a.push(Decl::StaticObject { set: None, kind: k, len: None });
         a.push(Decl::StaticObject { set: Some(1), kind: k, len: Some(2) });
@@ -429,7 +457,13 @@ fn random_decl(rng: &mut Rng) -> Decl {
         0 | 1 => None,
         n => Some((n - 2) as u32),
     };
-    match rng.below(22) {
+    match rng.below(24) {
+        22 | 23 => Decl::Global {
+            set,
+            ss: false,
+            kind: Some(rng.pick(NON_RESOURCE_KINDS).0),
+            len: if rng.chance(2, 3) { None } else { Some(rng.range(1, 3) as u32) },
+        },
         20 | 21 => Decl::StaticObject {
             set,
             kind: *rng.pick(&["Texture2D", "RWStructuredBuffer", "ByteAddressBuffer", "SamplerState"]),
